@@ -118,9 +118,38 @@ func fxAtom(r *hx.Rng, places int) string {
 		if !r.Chance(1, 4) {
 			return strconv.Itoa(r.Intn(50)) + "." + strconv.Itoa(r.Intn(10))
 		}
+		if r.Bool() {
+			return fxExpLit(r)
+		}
 		return hx.Pick(r, []string{"1e2", "1e-2", "2.5E1", "1e+2", "2.5E-1", "2.5E+1", "1e", "e", "E", "1e400", "sqrt(4)", "2 ^ 3", "log(1)", "exp(0)"})
 	default:
 		return strconv.Itoa(r.Intn(21) - 10)
+	}
+}
+
+// fxExpLit: a literal with an exponent — f64.FromString sends it through strconv.ParseFloat(str, 64) and
+// From[T](float64) = Int[T](f * float64(multiplier)): one float64 product, then truncation.  Digits that make the product
+// inexact (1.15e0 * 100 = 114.99999999999999 -> 1.14 in D2), the limits of int64 and the syntax edges of ParseFloat.
+func fxExpLit(r *hx.Rng) string {
+	switch r.Intn(6) {
+	case 0:
+		return hx.Pick(r, []string{"1e2", "1e-2", "2.5E1", "1e+2", "2.5E-1", "2.5E+1", "1e0", "0e0", "-0e0", "1E0", "1.5e3", "1,5e3", "1,000e-3", "0.29e2", "1.15e2",
+			"2.675e0", "1.005e0", "4.35e2", "1.1e0", "1.15e0", "2.9e-1", "4.35e0", "5.7e-1", "1.15", "0.29", "0.1e1", "0.7e1", "5e-5", "4.9e-5", "1e-16", "1e-17", "9e-17", "123456789e-9", "1e14", "9e14", "1e15", "9.2e18", "9.3e18",
+			"1e19", "1e400", "1e-400", "9.223372036854775e14", "9.223372036854776e14", "9.2233720368547758e2", "9.223372036854775807e0", "1e", "1e+", "1e-", "e1", "1ee1",
+			"1e1e1", ".e1", "1.e1", ".5e1", "1e2.5", "0x1e", "0x1p-2e", "1_0e1", "nane", "Infe", "e", "E"})
+	case 1, 2, 3:
+		s := strconv.Itoa(r.Intn(100000))
+		if r.Chance(3, 4) {
+			s += "."
+			for i, n := 0, r.Range(1, 18); i < n; i++ {
+				s += strconv.Itoa(r.Intn(10))
+			}
+		}
+		return s + hx.Pick(r, []string{"e", "E"}) + hx.Pick(r, []string{"", "+", "-", "-"}) + strconv.Itoa(r.Intn(20))
+	case 4: // the same value with and without the exponent notation, next to the limits of the configuration
+		return pointAt(hx.Pick(r, []string{"9223372036854775807", "9223372036854775", "922337203685477", "4611686018427387904", "1", "15", "99999999"}), r.Intn(17)) + "e" + strconv.Itoa(r.Intn(17))
+	default:
+		return strconv.Itoa(r.Intn(1000)) + "e-" + strconv.Itoa(r.Intn(6))
 	}
 }
 
@@ -142,6 +171,9 @@ func fxLit(r *hx.Rng, places int) string {
 	case 4:
 		return hx.Pick(r, []string{"$x", "$y", "$h", "$foo.bar", "$a_1", "$a1e", "$r2e", "$rate", "$A1E", "$ch", "$tiny", "$x.1e"})
 	case 5:
+		if r.Chance(1, 3) {
+			return strconv.Itoa(r.Intn(1000)) + hx.Pick(r, []string{"e-", "E-", "e", "e+"}) + strconv.Itoa(r.Intn(4)) // exponent notation
+		}
 		return hx.Pick(r, []string{"0", "$z", "$n", "$neg", "-3", "0.0"}) // zeros and negatives (as left operands and arguments)
 	case 6:
 		return pointAt(hx.Pick(r, []string{"4611686018427387903", "3037000499", "922337203685477580", "99999999", "1", "15"}), places)
